@@ -447,7 +447,7 @@ func (t *Terminal) countToRightWord() int {
 
 // isBlank: what separates words on the line (a typed TAB is kept as a TAB).
 func isBlank(r rune) bool {
-	return r == ' ' || r == '\t'
+	return r == ' ' || r == '\t' || r == '\n'
 }
 
 // visualLength returns the number of visible glyphs in s.
@@ -583,13 +583,18 @@ func (t *Terminal) handleKey(key rune) (line []string, ok bool) {
 		var quote rune
 		escaped := false
 		blockComment := false
-		begin := 0
+		// text of the query being collected: the entry without its //
+		// remarks, line breaks as blanks
+		var text []rune
 		for cur := 0; cur < len(t.line); cur++ {
-			switch c := t.line[cur]; {
+			c := t.line[cur]
+			switch {
 			case blockComment:
 				if c == '*' && cur+1 < len(t.line) && t.line[cur+1] == '/' {
 					blockComment = false
 					cur++
+					text = append(text, '*')
+					c = '/'
 				}
 			case quote == '`':
 				// raw string: no escapes
@@ -612,32 +617,31 @@ func (t *Terminal) handleKey(key rune) (line []string, ok bool) {
 			case c == '/' && cur+1 < len(t.line) && t.line[cur+1] == '*':
 				blockComment = true
 				cur++
+				text = append(text, '/')
+				c = '*'
 			case c == '/' && cur+1 < len(t.line) && t.line[cur+1] == '/':
-				// a remark up to the end of the line that is being entered
-				// (remarks of earlier lines are gone already). the entry
-				// keeps its line breaks as blanks, so the remark is taken
-				// out here: handed over with the rest of the statement
-				// behind it on one line, it would swallow that rest
-				end := cur
-				for end < len(t.line) && t.line[end] != '\n' {
-					end++
+				// a remark up to the end of its line. it stays in the entry
+				// (it is on the screen and can be edited) but is not handed
+				// over: the line break that ends it is handed over as a
+				// blank, and the remark would swallow the rest of the query
+				for cur+1 < len(t.line) && t.line[cur+1] != '\n' {
+					cur++
 				}
-				t.line = append(t.line[:cur], t.line[end:]...)
-				switch {
-				case t.pos >= end:
-					t.pos -= end - cur
-				case t.pos > cur:
-					t.pos = cur
-				}
-				cur--
+				continue
 			case c == 59:
-				queries = append(queries, strings.TrimSpace(string(t.line[begin:cur+1])))
-				begin = cur + 1
+				text = append(text, c)
+				queries = append(queries, strings.TrimSpace(string(text)))
+				text = text[:0]
+				continue
 			}
+			if c == '\n' {
+				c = ' '
+			}
+			text = append(text, c)
 		}
-		strline := strings.TrimSpace(string(t.line))
-		// if the last thing entered was a query terminator
-		if len(strline) == 0 || (quote == 0 && !blockComment && strline[len(strline)-1:] == ";") {
+		// if the last thing entered was a query terminator: nothing but
+		// white space and remarks stands behind it (or in the entry)
+		if len(strings.TrimSpace(string(text))) == 0 && quote == 0 && !blockComment {
 			// not sure what this is for
 			t.moveCursorToPos(len(t.line))
 			t.queue([]rune("\r\n"))
@@ -662,7 +666,7 @@ func (t *Terminal) handleKey(key rune) (line []string, ok bool) {
 			// replace line break with a space (the line feed of LF CR has
 			// left it already)
 			if !afterLF {
-				t.addKeyToLine(32)
+				t.addKeyToLine('\n')
 			}
 			t.queue([]rune("\r\n"))
 			// indent next line
@@ -691,10 +695,9 @@ func (t *Terminal) handleKey(key rune) (line []string, ok bool) {
 			// a line feed (^J, or text pasted by something that does not
 			// turn it into CR) separates words like the blank that Enter
 			// leaves on an unfinished line; it does not submit anything
-			key = ' '
 			t.afterLF = true
 		}
-		if key != '\t' && !isPrintable(key) {
+		if key != '\t' && key != '\n' && !isPrintable(key) {
 			return
 		}
 		// (no upper bound on the entry: a pending statement keeps all its
@@ -730,8 +733,9 @@ func (t *Terminal) writeLine(line []rune) {
 			todo = remainingOnLine
 		}
 		for _, r := range line[:todo] {
-			if r == '\t' {
-				// one cell on the screen, like every other key
+			if r == '\t' || r == '\n' {
+				// one cell on the screen, like every other key (the line
+				// break of a pending entry is a blank at the end of its line)
 				r = ' '
 			}
 			t.outBuf = append(t.outBuf, []byte(string(r))...)
